@@ -239,6 +239,37 @@ fn inject_conflicts(w: &mut World, h: usize, seen: &mut usize, budget: &mut u32)
             }
             if let Some(i) = tx.out_if {
                 *budget -= 1;
+                // first a competing prober for the same names (handled before the conflicting answer renames them): the daemon's own proposed records with one left out,
+                // one more added, or one changed (simultaneous-probe tiebreaking walks both lists)
+                let mut q = Message::query();
+                q.questions = m.questions.clone();
+                let mut auth = m.authorities.clone();
+                match e.t % 4 {
+                    0 => {
+                        auth.pop();
+                    }
+                    1 => {
+                        if let Some(last) = auth.last().cloned() {
+                            let extra = match last.rtype {
+                                wire::T_A => wire::aaaa(&last.name, 120, [0xfe, 0x80, 0, 0, 0, 0, 0, 0, 0, 0, 0, 0, 0, 0, 0, 9]),
+                                _ => wire::rec(&last.name, wire::T_NSEC, last.class, 120, RData::NSec { next: last.name.clone(), rest: vec![0, 1, 0x40] }),
+                            };
+                            auth.push(extra);
+                        }
+                    }
+                    2 => {
+                        if let Some(first) = auth.first_mut() {
+                            first.ttl = 0;
+                            if let RData::Txt(t) = &mut first.rdata {
+                                t.push(1);
+                                t.push(0xff);
+                            }
+                        }
+                    }
+                    _ => auth.reverse(),
+                }
+                q.authorities = auth;
+                replies.push((i, tx.v4, q));
                 replies.push((i, tx.v4, r));
             }
         }
